@@ -14,6 +14,10 @@ func (b *Bounds) Extend(b2 *Bounds) {
 	if b2 == nil {
 		return
 	}
+	if b2.Empty() {
+		// An empty box contains no points, so there is nothing to include.
+		return
+	}
 	b.extendPoint(b2.Min)
 	b.extendPoint(b2.Max)
 }
